@@ -267,9 +267,9 @@ class TracebackInfo:
         if frame is None:
             frame = sys._getframe(level)
         if limit is None:
-            limit = getattr(sys, 'tracebacklimit', 1000)
+            limit = getattr(sys, 'tracebacklimit', None)
         n = 0
-        while frame is not None and n < limit:
+        while frame is not None and (limit is None or n < limit):
             item = cls.callpoint_type.from_frame(frame)
             ret.append(item)
             frame = frame.f_back
@@ -301,9 +301,9 @@ class TracebackInfo:
             if tb is None:
                 raise ValueError('no tb set and no exception being handled')
         if limit is None:
-            limit = getattr(sys, 'tracebacklimit', 1000)
+            limit = getattr(sys, 'tracebacklimit', None)
         n = 0
-        while tb is not None and n < limit:
+        while tb is not None and (limit is None or n < limit):
             item = cls.callpoint_type.from_tb(tb)
             ret.append(item)
             tb = tb.tb_next
